@@ -296,6 +296,9 @@ func runC17(t *testing.T, rec *core.Recorder) {
 		}
 	}
 
+	// (3c) registration histories in fresh processes: listing / constructing before and after the rule groups are loaded
+	checkInitOrder(t, rec, fail)
+
 	// (4) behavioural differential: engine loaded from source vs engine loaded from shipped IR
 	behaviouralDiff(t, rec, src, fail)
 
